@@ -49,8 +49,8 @@ CHECKS = {
          "Held on the histories explored: generated workflows (plain, join, with-items with/without concurrency, retry, sub-workflows) run to ERROR, then rerun (reset on/off) or skip of a failed task with a new outcome, drained, repeated up to 3 times; oracle: workflow, enclosing workflows and parent tasks RUNNING right after the request and the task leaves ERROR first, normal form at quiescence equal to a fresh run with the new outcomes from the start (engine vs engine), with-items reruns exactly the failed items (reset off) or all items once (reset on), skip => SKIPPED with its on-skip / on-success successors, requests for tasks not in ERROR refused.",
          "runtime monitoring: metamorphic equality of recorded final rows (rerun history vs fresh run) + trace monitors on row history after each rerun request"),
  'C13': ('fault_enumeration',
-         "Held on the schedules and crash points enumerated: 1..3 real DefaultScheduler / LegacyScheduler instances on the shared database, 1..3 jobs scheduled in committing / rolling-back / object-expiring transactions; interleavings of persist, in-memory dispatch, store poll and clock steps with yield points before every DB-API call (dfs by re-execution + randomized strategies); for recorded schedules a sys.monitoring LINE failpoint kills an instance at its k-th statement, for every k; oracle over the invocation log (at least once if committed, never early, exactly once without crash, never if rolled back) and has_scheduled_jobs(key, processing=False) compared with the committed rows at every unit boundary.",
-         "runtime monitoring: offline checker over the recorded invocation log + per-boundary assertion on the key query, under dfs interleaving and sys.monitoring statement-level crash injection"),
+         "Held on the schedules and crash points enumerated: 1..3 real DefaultScheduler / LegacyScheduler instances on the shared database, 1..3 jobs scheduled in committing / rolling-back / object-expiring transactions; interleavings of persist, in-memory dispatch, store poll and clock steps with yield points before every DB-API call (dfs by re-execution + randomized strategies); for recorded schedules a sys.monitoring LINE failpoint kills an instance at its k-th statement, for every k; oracle over the invocation log (at least once if committed, never early, exactly once without crash, never if rolled back) and has_scheduled_jobs(key, processing=False) compared with the committed rows at every unit boundary.  Thread mode: the real DefaultScheduler._dispatcher thread runs against the virtual clock (instrumented condition variable: virtual time-outs, scheduler notifies and spurious wake-ups; recording executor) under random operation sequences (schedule / advance by fractions of a second / spurious wake-up / run / poll / stop + restart); oracle over the dispatcher log: no submission before execute_at on the service clock, none twice, none after stop(), thread neither dies nor survives stop().",
+         "runtime monitoring: offline checker over the recorded invocation log and dispatcher log + per-boundary assertion on the key query, under dfs interleaving, sys.monitoring statement-level crash injection and a virtual-time condition variable for the real dispatcher thread"),
  'C14': ('exploration',
          "Held on the inputs explored: structure-aware and text-level mutants of every bundled YAML definition and of generated workflows, each through the workflow-list / workbook / action-list parsers with validation on and a share through the definition services (create/update with the DB); oracle: accepted or a declared 4xx definition error, never another exception nor a call over the time budget; for accepted definitions the specification rebuilt from its stored dict is equal through the public getters and every member cut out of a workbook text parses to the member written in the workbook.",
          "runtime monitoring: outcome-class / round-trip / slicing monitors on the real parser and service entry points under structure-aware fuzzing, with faulthandler watchdogs for hangs"),
@@ -79,7 +79,7 @@ NOTES = {'C01': "Trusted base: mvf/ref.py (reference semantics for direct workfl
          'C15': "Trusted base: fixtures created through services / DB API, identity from context / headers (authentication stubbed). Heartbeat reports and the engine-internal compare-and-swap functions are not tenant-facing and are excluded (see the evidence assumptions).",
          'C16': "Trusted base: authentication stubbed (identity from X-Project-Id / X-Roles headers), engine replaced by a recording stub answering from the database, request templates written by hand and cross-checked against the walked controller tree.",
          'C17': "Trusted base: recording stub instead of the engine client, keystone trusts stubbed at the boundary (authentication on), virtual clock, croniter for the pattern oracle. Known finding (open): occurrence lost when a processor dies between advancing the trigger and starting the workflow.",
-         'C13': "Trusted base: the step driver that replaces the dispatcher / poller threads (due heap entries are popped by the harness; the _dispatcher thread's own waiting logic is not exercised in step mode), virtual clock, sqlite shared connection; the clock is never advanced while a live instance is between looking at a job and deleting it. Legacy scheduler: crash recovery not claimed.",
+         'C13': "Trusted base: the step driver that replaces the dispatcher / poller threads in step mode (due heap entries are popped by the harness); in thread mode the instrumented condition variable and the recording executor (mvf/schedthread.py) - the store-poller thread's wall-clock sleep loop is never run, the harness calls _process_store_jobs itself; virtual clock, sqlite shared connection; the clock is never advanced while a live instance is between looking at a job and deleting it. Legacy scheduler: crash recovery not claimed.",
          'C14': "Trusted base: PyYAML for building the mutants and the expected workbook members, the fingerprint function over public getters. REST entry points are exercised by the C16 harness.",
          'C18': "Trusted base: the reference in mvf/checks/c18.py, sqlite with foreign keys on (cascade deletes as on server databases), virtual clock.",
          'C19': "Trusted base: the URL catalogue's numeric ground truth, the fake resolver table, CPython audit events for socket.connect. No network: redirects and DNS rebinding are not exercised (every connect is aborted by the sanitizer)."}
